@@ -2,7 +2,7 @@
    All theorems hold for every ordered field F (executed instance Qc, real numbers R), every number of
    outcomes, every number of shots n >= 1 and every list of independent schedules; no bounds. *)
 From Coq Require Import List Arith Lia QArith Qcanon.
-From QV.Core Require Import OF Sums Mat QcOF.
+From QV.Core Require Import OF Sums Mat QcOF Cplx.
 From QV.Model Require Import Multinomial C19_Expect C19_ErrFormulas.
 From QV.Proofs Require Import C19_Expect C19_ErrFormulas.
 From QV.Exec Require Import C19_ops.
@@ -262,6 +262,20 @@ Theorem C19_left_inv_normal_eq : forall (F : OF) (nv nr : nat) (A L : @mat F),
   meq nv nr (mmul nr (mT A) (mmul nv A L)) (mT A).
 Proof. exact left_inv_normal_eq. Qed.
 Print Assumptions C19_left_inv_normal_eq.
+
+(* ---- squared error of complex arrays (calc_se on density / Choi matrices): np.vdot(x - y, x - y), real part ----
+   = sum of the squared moduli of the entry differences; non-negative; the real squared distance on real data *)
+Theorem C19_se_complex_is_sum_sqr_moduli : forall (F : OF) n (x y : nat -> cplx F),
+  csqdist F n x y = sumn n (fun k => znorm2 (zsub (x k) (y k))).
+Proof. exact csqdist_is_sum_sqr_moduli. Qed.
+Print Assumptions C19_se_complex_is_sum_sqr_moduli.
+Theorem C19_se_complex_nonneg : forall (F : OF) n (x y : nat -> cplx F), kle F (c0 F) (csqdist F n x y).
+Proof. exact csqdist_nonneg. Qed.
+Print Assumptions C19_se_complex_nonneg.
+Theorem C19_se_complex_real_case : forall (F : OF) n (x y : @vec F),
+  csqdist F n (fun k => zof (x k)) (fun k => zof (y k)) = sqdist F n x y.
+Proof. exact csqdist_real. Qed.
+Print Assumptions C19_se_complex_real_case.
 
 (* ---- the executed driver op c19.tomo_mse evaluates the formulas on materialised (list-backed) matrices; these values ARE the
    model functions of the theorems above (h = the parsed request: type, flags, sizes ms, A, b, v) ---- *)
